@@ -163,10 +163,8 @@ Proof.
   - destruct (lookup (s_txns s) t) as [x|] eqn:Hl; [|discriminate]. inversion Hst. subst.
     apply pend_within_set_txn; [assumption|].
     exact (forallb_lookup (txn_within thr) _ _ _ Hs Hl).
-  - destruct (_ && existsb _ _); [discriminate|]. inversion Hst. subst. exact Hs.
+  - inversion Hst. subst. exact Hs.
   - destruct (negb (pick_check (l_levels (s_db s)) c =? 0)); [discriminate|].
-    destruct (negb (layout_ok _ _ _)); [discriminate|].
-    destruct (negb (order_ok _ _)); [discriminate|].
     destruct (entries_eqb _ out); [|discriminate].
     destruct (sorted_by_smallest _ || _); [|discriminate]. inversion Hst. subst. exact Hs.
   - inversion Hst. subst. exact Hs.
@@ -338,10 +336,8 @@ Proof.
     apply andb_prop in E1, E2. destruct E1 as [E1 _]. destruct E2 as [E2 _]. apply N.eqb_eq in E1, E2. subst.
     inversion H1. inversion H2. subst. split; reflexivity.
   - rewrite H1 in H2. inversion H2. split; [reflexivity|exact I].
-  - destruct (_ && existsb _ _); [discriminate|]. rewrite H1 in H2. inversion H2. split; [reflexivity|exact I].
+  - rewrite H1 in H2. inversion H2. split; [reflexivity|exact I].
   - destruct (negb (pick_check (l_levels (s_db s)) c =? 0)); [discriminate|].
-    destruct (negb (layout_ok _ _ _)); [discriminate|].
-    destruct (negb (order_ok _ _)); [discriminate|].
     destruct (entries_eqb _ o) eqn:E1; [|discriminate]. destruct (entries_eqb _ o') eqn:E2; [|discriminate].
     apply entries_eqb_eq in E1, E2. subst. rewrite H1 in H2. inversion H2. split; reflexivity.
   - rewrite H1 in H2. inversion H2. split; [reflexivity|exact I].
@@ -395,9 +391,8 @@ Proof.
     pose proof (txn_commit_managed s t x cts) as Hm. destruct (txn_commit s t x cts) as [[r0 ts] s1].
     destruct (_ && _); [|discriminate]. inversion H. subst. exact Hm.
   - destruct (lookup _ _); [|discriminate]. inversion H. reflexivity.
-  - destruct (_ && existsb _ _); [discriminate|]. inversion H. reflexivity.
-  - destruct (negb _); [discriminate|]. destruct (negb (layout_ok _ _ _)); [discriminate|].
-    destruct (negb (order_ok _ _)); [discriminate|]. destruct (entries_eqb _ _); [|discriminate].
+  - inversion H. reflexivity.
+  - destruct (negb _); [discriminate|]. destruct (entries_eqb _ _); [|discriminate].
     destruct (_ || _); [|discriminate]. inversion H. reflexivity.
   - inversion H. reflexivity.
   - inversion H. reflexivity.
